@@ -27,6 +27,13 @@ THEOREMS = [
     {"name": "C02b_succeeded_partial", "strength": "P",
      "text": "succeeded => nothing in flight, nothing staged, nothing active, every record completed or retrying "
              "(excluding `retrying` needs a cross-route join invariant that is not proved)"},
+    {"name": "C02c_unremediated_failure_fails_call / C02c_call_keeps_cancel_class / C02c_fail_command_call_fails / "
+             "C02c_fail_flags_siblings (props/C02c.v)", "strength": "P",
+     "text": "ALWAYS ENDS FAILED, at the level of whole API calls: a failed report for a plain task with no retry left whose "
+             "transitions are all unsatisfied leaves the workflow failed (from running, pausing, paused, resuming); from "
+             "canceling/canceled every call stays in canceling/canceled/failed; the nested call that delivers the fail command "
+             "leaves the workflow failed, and the siblings staged beside a queued fail carry run_on_fail. The composition "
+             "'a provider call whose transitions queue fail ends failed' is not proved as one statement; runtime errors: C11b"},
     {"name": "C02d_item_in_flight_slot_running / C02d_item_in_flight_record_active / C02d_active_slot_in_flight / "
              "C02d_no_pending_record (props/C02d.v)", "strength": "P",
      "text": "WITH items (no hypothesis on spec or graph; flags as in C12c): an item in flight has a running slot and an active "
